@@ -415,8 +415,12 @@ def r4(ctx: Ctx):
            ' generator is installed')
   fi = ctx.repo.func(CS, f'{CLSN}._next_batch')
   g = cfgm.cfg_of(fi.node)
-  gb = [x for x in walk_no_nested(fi.node) if isinstance(x, ast.Call)
-        and unparse(x.func) == 'self._generator.get_batch']
+  # the installed queue, also under a local name (`q = self._generator`)
+  qnames = {'self._generator'} | {x.targets[0].id for x in walk_no_nested(fi.node) if isinstance(x, ast.Assign) and len(x.targets) == 1
+                                 and isinstance(x.targets[0], ast.Name) and unparse(x.value) == 'self._generator'}
+  is_get_batch = lambda c: isinstance(c, ast.Call) and isinstance(c.func, ast.Attribute) and c.func.attr == 'get_batch' \
+      and unparse(c.func.value) in qnames
+  gb = [x for x in walk_no_nested(fi.node) if is_get_batch(x)]
   if gb and unparse(kwarg(gb[0], 'block')) == 'True' and gb[0].args:
     ctx.ok(rule, fi, unparse(gb[0]), gb[0])
   else:
@@ -425,8 +429,7 @@ def r4(ctx: Ctx):
              ' receive short or empty batches and spin', node=fi.node)
   batchv = None
   for x in walk_no_nested(fi.node):
-    if isinstance(x, ast.Assign) and isinstance(x.targets[0], ast.Name) and isinstance(x.value, ast.Call) and (
-        unparse(x.value.func) == 'self._generator.get_batch'):
+    if isinstance(x, ast.Assign) and isinstance(x.targets[0], ast.Name) and is_get_batch(x.value):
       batchv = x.targets[0].id
   if batchv is None:
     raise AnalysisError(f'{rule}: _next_batch does not keep the batch in a local')
@@ -794,6 +797,10 @@ from mlmverif.selfcheck import B, OK  # noqa: E402
 
 _F = 'chainables/courier_server.py'
 VARIANTS = [
+    OK('next-batch-queue-through-a-local', 'chainables/courier_server.py',
+       "      result = self._generator.get_batch(batch_size, block=True)", "      prefetched = self._generator\n      result = prefetched.get_batch(batch_size, block=True)"),
+    OK('put-through-a-local', 'utils/iter_utils.py',
+       "          self._put_nowait(value)\n", "          item = value\n          self._put_nowait(item)\n"),
     OK('handler-reads-the-queue-through-a-local', 'chainables/courier_server.py',
        "        result.append(StopIteration(*self._generator.returned))\n", "        generator = self._generator\n        result.append(StopIteration(*generator.returned))\n"),
     OK('generator-checked-through-a-named-flag', 'chainables/courier_server.py',
